@@ -17,9 +17,9 @@ import (
 // listing n actors of which k answer the delivery with a failure must not keep Send / PostOutbox /
 // PostInbox from returning (the process-wide watchdog reports a request that does not).
 func realTransportPart(res *Result, thorough bool) {
-	sizes := []int{1, 2, 3, 9, 17}
+	sizes := []int{1, 2, 3, 9, 17, 33, 65}
 	if thorough {
-		sizes = append(sizes, 33, 65)
+		sizes = append(sizes, 129, 257)
 	}
 	kinds := []struct {
 		name string
